@@ -65,8 +65,10 @@ class Compiler:
                 if len(placeholders) != len(parameters):
                     raise ProgrammingError(
                         f'the query has {len(placeholders)} placeholders but {len(parameters)} parameters were passed')
-                for i, placeholder in enumerate(sorted(placeholders, key=lambda node: node.parseinfo.pos)):
-                    placeholder.name = i
+                # Number the positional placeholders in textual order. The
+                # statement may be compiled again: do not modify it.
+                self.positions = {id(placeholder): i for i, placeholder in enumerate(
+                    sorted(placeholders, key=lambda node: node.parseinfo.pos))}
             else:
                 raise ProgrammingError('positional and named parameters cannot be mixed')
 
@@ -629,7 +631,8 @@ class Compiler:
 
     @_compile.register
     def _placeholder(self, node: ast.Placeholder):
-        return EvalConstant(self.parameters[node.name])
+        key = node.name if node.name else self.positions[id(node)]
+        return EvalConstant(self.parameters[key])
 
     @_compile.register
     def _asterisk(self, node: ast.Asterisk):
